@@ -133,6 +133,7 @@ def hostMethodSig : String → String → Option Sig
   | "Math", "ceil" | "Math", "trunc" | "Math", "round" => some (anyN 1)
   | "JSON", "stringify" => some (anyN 1)
   | "JSON", "parse" => some { fixed := [.gostr] }
+  | "Object", "keys" => some (anyN 1)
   | _, _ => none
 
 /-- index of `needle` in `hay` (strings.Index), on code points -/
@@ -292,6 +293,10 @@ def callHostMethod (host name : String) (args : List Val) : M Val := do
   | "JSON", "stringify", [v] => do
     let s ← ofOpt (marshal h (strFuel h) v) "json.Marshal outside domain"
     pure (.S s)
+  | "Object", "keys", [.map a] => do
+    -- js_object.go Keys: a NEW array with the keys in lexical order; the object itself (its own key order) is untouched
+    let ks := sortKeys ((h.getMap a).items.map (·.1))
+    allocArr (ks.map Val.S)
   | _, _, _ => domainErr s!"host method {host}.{name}"
 
 end Pug.Tpl
@@ -299,8 +304,17 @@ end Pug.Tpl
 namespace Pug.Tpl
 open Pug Pug.Data
 
+/-- the Go functions the model knows by name; a function-map entry bound to any other identifier (e.g. `"__attr": attrOf`) is
+    modelled under its function-map NAME, like the entries bound to function literals -/
+def knownImpls : List String :=
+  ["runtimeAdd", "runtimeSub", "runtimeMul", "runtimeQuo", "runtimeRem", "runtimeEql", "runtimeLss", "runtimeInc", "runtimeDec",
+   "runtimeJSON", "not", "and", "or", "index", "HTMLEscaper"]
+
 /-- helper name → Go implementation, through the tables generated from runtime.go / tpl_funcs.go -/
-def helperImpl (name : String) : Option String := (Gen.helperIdents.find? (·.1 == name)).map (·.2)
+def helperImpl (name : String) : Option String :=
+  match (Gen.helperIdents.find? (·.1 == name)).map (·.2) with
+  | some i => if knownImpls.contains i then some i else none
+  | none => none
 def helperClosure (name : String) : Option Gen.BExpr := (Gen.helperClosures.find? (·.1 == name)).map (·.2)
 
 def stdHtmlEscapeTable : List (Char × String) :=
@@ -439,6 +453,38 @@ def attrRenderOne (name : String) (vals : List TmpAttr) : String :=
 def renderAttrs (recs : List AttrRec) : String :=
   String.join ((attrCollect recs).map fun (n, vs) => attrRenderOne n vs)
 
+/-- class names of a class value (runtime.go classNames): lists - also nested ones, as a repeated class attribute of a mixin call
+    arrives - are flattened, false / null entries dropped -/
+def classNamesOf (h : Heap) : Nat → Val → Option (List String)
+  | 0, _ => none
+  | fuel + 1, v =>
+    match v with
+    | .arr a => ((h.getArr a).mapM (classNamesOf h fuel)).map List.flatten
+    | .B false | .bool false | .nil | .invalid => some []
+    | v => (objStr h (strFuel h) v).map fun s => [s]
+
+/-- runtime.go attrOf: the record(s) of one name / value pair -/
+def attrRecOf (h : Heap) (k : String) (v : Val) (e : Bool) : M (List AttrRec) :=
+  match v with
+  | .B b | .bool b => pure [(k, some b, "", false)]
+  | .nil => pure [(k, some false, "", false)]
+  | .str s => pure [(k, none, s, e)]
+  | .invalid => pure [(k, some false, "", false)]    -- undefined variable: nil interface, omitted like null
+  | .int i => pure [(k, none, toString i, e)]
+  | .flt q => do
+    let s ← ofOpt (fmtFloatV q) "float formatting"
+    pure [(k, none, s, e)]
+  | .arr _ =>
+    if k == "class" then do
+      let ss ← ofOpt (classNamesOf h (strFuel h) v) "String() outside domain"
+      pure [(k, none, " ".intercalate ss, e)]
+    else do
+      let s ← ofOpt (objStr h (strFuel h) v) "String() outside domain"
+      pure [(k, none, s, e)]
+  | v => do
+    let s ← ofOpt (objStr h (strFuel h) v) "String() outside domain"
+    pure [(k, none, s, e)]
+
 /-- apply a function-map entry to evaluated arguments; results already passed through `convert` -/
 def callBuiltin (name : String) (args : List Val) : M Val := do
   let h ← getHeap
@@ -506,44 +552,16 @@ def callBuiltin (name : String) (args : List Val) : M Val := do
         | .nil, _ => pure .nil
         | .invalid, _ => pure .invalid
         | _, _ => domainErr "__tryindex on a non-array"
-      | "__attr", [.str k, v, .bool e] =>
-        -- runtime.go __attr: bool / nil → BoolVal only; object or string → Val; anything else → fmt.Sprintf
-        match v with
-        | .B b | .bool b => pure (.attrs [(k, some b, "", false)])
-        | .nil => pure (.attrs [(k, some false, "", false)])
-        | .str s => pure (.attrs [(k, none, s, e)])
-        | .invalid => pure (.attrs [(k, some false, "", false)])    -- undefined variable: nil interface, omitted like null
-        | .int i => pure (.attrs [(k, none, toString i, e)])
-        | .flt q => do
-          let s ← ofOpt (fmtFloatV q) "float formatting"
-          pure (.attrs [(k, none, s, e)])
-        | .arr a =>
-          if k == "class" then do
-            -- entries that are false or null are dropped; the rest joined by one blank
-            let items := (h.getArr a).filter fun it => match it with
-              | .B false | .nil | .invalid => false
-              | _ => true
-            let ss ← items.mapM fun it => ofOpt (objStr h (strFuel h) it) "String() outside domain"
-            pure (.attrs [(k, none, " ".intercalate ss, e)])
-          else do
-            let s ← ofOpt (objStr h (strFuel h) v) "String() outside domain"
-            pure (.attrs [(k, none, s, e)])
-        | v => do
-          let s ← ofOpt (objStr h (strFuel h) v) "String() outside domain"
-          pure (.attrs [(k, none, s, e)])
+      | "__attr", [.str k, v, .bool e] => do pure (.attrs (← attrRecOf h k v e))
       | "__and_attrs", [x] =>
         match x with
         | .map a => do
           let m := h.getMap a
           let (keys, m') := mapKeys m
           setHeap (h.setMap a m')
-          let recs ← keys.mapM fun k => do
-            let v := mapMember m k
-            let s ← ofOpt (objStr h (strFuel h) v) "String() outside domain"
-            match v with
-            | .B b => pure (k, some b, s, true)
-            | _ => pure (k, (none : Option Bool), s, true)
-          pure (.attrs recs)
+          -- every spread value is treated like a written attribute (runtime.go: attrOf)
+          let recs ← keys.mapM fun k => attrRecOf h k (mapMember m k) true
+          pure (.attrs recs.flatten)
         | _ => domainErr "&attributes of a non-map"
       | "__attrs", lists => do
         let recs ← lists.mapM fun l => match l with
@@ -582,6 +600,7 @@ def callBuiltin (name : String) (args : List Val) : M Val := do
           allocArr ((List.range (m - o).toNat).map fun (i : Nat) => Val.N ((o + (i : Int) : Int) : Rat))
       | "Math", [] => pure (.host "Math")
       | "JSON", [] => pure (.host "JSON")
+      | "Object", [] => pure (.host "Object")
       | _, _ => domainErr s!"function {name}"
 
 mutual
